@@ -13,6 +13,8 @@ Decided:
          the macro pre-pass strips
   R15.5  relative references: n leading '!' climb n-1 levels from the parent; a referenced shift and
          inline hours reach the same working-hours test
+  R15.7  comments of every kind the grammar ignores are removed before the macro pre-pass scans the text
+  R15.8  the patterns that extract built-in macro values are not anchored to line boundaries
 Not decided: that two concrete texts give equal dates.
 """
 from __future__ import annotations
@@ -167,6 +169,76 @@ def run(ctx: Ctx):
     ok = bool(sh) and all("shift" in norm(a.value) for a in sh)
     ctx.ob("R15.5", f"{ap.qual}: shift reference stored as the resource's shift", ap, ok, "resource[shifts] := the named shift" if ok else
            "a shift referenced by id is not attached to the resource", key="R15.5|workinghours_shift")
+    # ---------------------------------------------------------------- R15.7 the macro pre-pass sees comment-free text
+    mp = repo.func("MacroProcessor.process")
+    from ..cfg import cfg_of as _cfg
+    gmp = _cfg(mp)
+    scans = [n for n in gmp.nodes if n.kind == "stmt" and n.ast is not None and any(
+        isinstance(c, ast.Call) and norm(c.func) in ("self._extract_macros", "self._extract_project_dates", "self._expand_macros") for c in ast.walk(n.ast))]
+    strips = [n for n in gmp.nodes if n.kind == "stmt" and isinstance(n.ast, ast.Assign) and isinstance(n.ast.value, ast.Call)
+              and norm(n.ast.value.func) in ("strip_comments", "strip_shell_comments") and norm(n.ast.targets[0]) == norm(n.ast.value.args[0])]
+    if not scans:
+        raise AnchorMissing("MacroProcessor.process: macro scans not found")
+    dom_mp = gmp.dominators()
+    ok = bool(strips) and all(any(s_.id in dom_mp[x.id] for s_ in strips) for x in scans)
+    kinds = set()
+    for s_ in strips:
+        fname = norm(s_.ast.value.func)
+        if repo.has_func(fname):
+            for c in own_nodes(repo.func(fname)):
+                if isinstance(c, ast.Constant) and isinstance(c.value, str) and c.value in ("#", "//", "/*"):
+                    kinds.add(c.value)
+    grammar_text = open(os.path.join(repo.root, "scriptplan", "parser", "tjp.lark")).read()
+    need = {k for k, t in (("#", "SH_COMMENT"), ("//", "CPP_COMMENT"), ("/*", "C_COMMENT")) if f"%ignore {t}" in grammar_text}
+    ok = ok and need <= kinds
+    ctx.ob("R15.7", f"{mp.qual}: comment kinds stripped before the macro scans {sorted(kinds)} (grammar ignores {sorted(need)})", mp, ok,
+           "macro definitions and built-in dates are extracted from comment-free text" if ok else
+           "the macro pre-pass scans text that still contains comments the grammar ignores: a `now <date>` or a macro definition inside a "
+           "comment changes the expansion, so adding a comment changes the schedule",
+           key="R15.7|MacroProcessor.process|comments stripped first")
+    # ---------------------------------------------------------------- R15.8 built-in values are found wherever they stand in the text
+    # whitespace (line breaks) is not significant in the project text: a pattern that extracts `now` or the project header for
+    # the built-in macros may not be anchored to the beginning / end of a line
+    import re._parser as _sre
+    epd = repo.func("MacroProcessor._extract_project_dates")
+    n_pat = 0
+    for c in own_nodes(epd):
+        if isinstance(c, ast.Call) and norm(c.func) in ("re.search", "re.match", "re.compile", "re.finditer", "re.findall") and c.args:
+            pat = c.args[0]
+            if not (isinstance(pat, ast.Constant) and isinstance(pat.value, str)):
+                continue
+            n_pat += 1
+            try:
+                tree = _sre.parse(pat.value)
+            except Exception:
+                continue
+            anchors = []
+
+            def walk_(t):
+                for op, av in t:
+                    if str(op) == "AT" and str(av) in ("AT_BEGINNING", "AT_BEGINNING_LINE", "AT_END", "AT_END_LINE", "AT_BEGINNING_STRING", "AT_END_STRING"):
+                        anchors.append(str(av))
+                    if isinstance(av, (list, tuple)):
+                        for x in av:
+                            if hasattr(x, "data"):
+                                walk_(x)
+                            elif isinstance(x, (list, tuple)):
+                                for y in x:
+                                    if hasattr(y, "data"):
+                                        walk_(y)
+                    elif hasattr(av, "data"):
+                        walk_(av)
+            walk_(tree)
+            multiline = any("MULTILINE" in norm(a) for a in list(c.args[1:]) + [k.value for k in c.keywords])
+            is_header = "project" in pat.value
+            ok = not anchors and not multiline or (is_header and anchors == [])
+            ctx.ob("R15.8", f"{epd.qual}: pattern {pat.value[:50]!r}", (epd, c), ok,
+                   "matches wherever the statement stands" if ok else
+                   f"the pattern is anchored to a line boundary ({anchors or 'MULTILINE'}): writing the statement on the same line as the "
+                   "preceding text (a whitespace-only change) hides it from the built-in macros",
+                   key=key_of("R15.8", epd, None, "pattern " + pat.value[:40]))
+    if n_pat < 2:
+        raise AnchorMissing(f"_extract_project_dates: {n_pat} literal patterns found")
     # ---------------------------------------------------------------- R15.6 task identity
     from .common import local_id_identity_rule
     local_id_identity_rule(ctx, "R15.6", ("parser/tjp_parser.py", "parser/macro_processor.py"),
